@@ -28,6 +28,14 @@ def run(res, props_file, pinned, tag, what):
         for c in rr["CASE"]:
             for v in [v for v in c["monitor_violations"] if v.startswith(tag + ":")][:1]:
                 found.append((dom, c["id"], v, c["ops"]))
+    # the on-chain domain (C08's harness) restores a second signer after every signed on-chain transaction
+    onchain_cases = []
+    if tag == "C11":
+        oc = lib.run_harness("onchain", "node", res.seed + 10, 80 if quick else 1200, res.tier, timeout=3000)
+        onchain_cases = oc["CASE"]
+        for c in onchain_cases:
+            for v in c.get("c11_violations", [])[:1]:
+                found.append(("onchain", c["id"], v, {"policy": c["policy"], "transaction": c["transaction"], "steps": c["steps"]}))
     for dom, cid, v, ops in found[:4]:
         res.violation("%s fails on the implementation: %s" % (tag, v[:300]),
                       {"domain": dom, "seed": res.seed, "case": cid, "what": v, "history": ops})
@@ -60,6 +68,7 @@ def run(res, props_file, pinned, tag, what):
                 "corpus) and pay (multi-channel commitment updates with HTLCs).  Around EVERY request: " + what + "; "
                 "non-trivial (nodeops) = has a restart, a refusal and an accepted forget; distinct by full history",
         "samples": [{"domain": "nodeops", "ops": ncases[0]["ops"][:10]}],
+        "onchain_cases_with_restart_comparison": len(onchain_cases),
         "requests_checked": requests,
         "refused_requests_checked": refused,
         "traces_validated_against_impl": len(ncases),
